@@ -27,6 +27,7 @@ class Env:
         self.posts = []
         self.responder = None
         self.ofxhome = {}
+        self.debug_logging = False    # True: as with -vv (the ofxtools loggers at DEBUG, into a null handler)
         self.ofxhome_wire = False     # True: the real ofxhome.lookup runs against a fake OFX Home answering XML records
 
     @property
@@ -110,7 +111,15 @@ class Env:
         out = io.StringIO()
         res = {"ok": False, "exc": "", "stdout": "", "args": {}, "posts": []}
         import logging
-        logging.disable(logging.CRITICAL)
+        lg = logging.getLogger("ofxtools")
+        if self.debug_logging:
+            logging.disable(logging.NOTSET)
+            lg.setLevel(logging.DEBUG)
+            lg.propagate = False
+            if not any(isinstance(h, logging.NullHandler) for h in lg.handlers):
+                lg.addHandler(logging.NullHandler())
+        else:
+            logging.disable(logging.CRITICAL)
         with warnings.catch_warnings():
             warnings.simplefilter("ignore")
             try:
